@@ -5,8 +5,24 @@ package face
 import "github.com/named-data/ndnd/fw/dispatch"
 
 // VerifResetFaceTable empties the global face table and the dispatch table and restarts face id
-// allocation (what a fresh process starts with).
+// allocation (what a fresh process starts with). The faces are taken out through the real removal
+// functions, for every id an execution can have used and not only for the ids still listed, so that
+// whatever else the implementation keeps per face next to the two maps is invalidated the way the
+// implementation itself invalidates it (executions must not inherit anything from each other).
+// Called after the RIB was reset (Remove cleans the - then empty - RIB).
 func VerifResetFaceTable() {
+	ids := map[uint64]bool{}
+	FaceTable.faces.Range(func(k, _ any) bool { ids[k.(uint64)] = true; return true })
+	dispatch.FaceDispatch.Range(func(k, _ any) bool { ids[k.(uint64)] = true; return true })
+	for _, id := range []uint64{0, 10, 11, 12, 13} { // (the face table hands out ids from 10)
+		ids[id] = true
+	}
+	for id := uint64(0); id < 64; id++ { // (ascending: a deterministic order)
+		if ids[id] {
+			FaceTable.Remove(id)
+			dispatch.RemoveFace(id)
+		}
+	}
 	FaceTable.faces.Range(func(k, _ any) bool { FaceTable.faces.Delete(k); return true })
 	dispatch.FaceDispatch.Range(func(k, _ any) bool { dispatch.FaceDispatch.Delete(k); return true })
 	FaceTable.nextFaceID.Store(10) // ids below 10 are used by the scenarios for routes of faces that are torn down
